@@ -991,6 +991,17 @@ class Translator:
                     # OpmLog::xxx(const std::string&) - static member of a class outside the dump
                     if self._is_log_call(x):
                         sinks.append(x)
+        # statements that only build a string:  msg += ... ;  msg = ... ;  os << ...   (decided per candidate below)
+        builders = []
+        for x in walk(body):
+            if x.get('kind') == 'CXXOperatorCallExpr' and x.get('_parent', {}).get('kind') in ('CompoundStmt', 'ExprWithCleanups', 'IfStmt', 'ForStmt'):
+                ref, _ = self.callee_decl(x['inner'][0])
+                if ref and ref.get('name') in ('operator+=', 'operator=', 'operator<<'):
+                    lhs = x['inner'][1]
+                    while lhs.get('kind') in ('ImplicitCastExpr', 'ParenExpr') and lhs.get('inner'):
+                        lhs = lhs['inner'][0]
+                    if lhs.get('kind') == 'DeclRefExpr':
+                        builders.append((lhs['referencedDecl']['id'], x))
         sink_ids = set()
         for s in sinks:
             for y in walk(s):
@@ -1005,6 +1016,12 @@ class Translator:
         for x in walk(body):
             if x.get('kind') == 'DeclRefExpr' and x['referencedDecl']['id'] in cands:
                 uses[x['referencedDecl']['id']].append(x)
+        for vid, x in builders:
+            if vid in cands:
+                for y in walk(x):
+                    sink_ids.add(id(y))
+        self.builder_ids = {id(x) for vid, x in builders if vid in cands}
+        self.builder_var = {id(x): vid for vid, x in builders if vid in cands}
         dropped = set(cands)
         changed = True
         while changed:
@@ -1025,7 +1042,26 @@ class Translator:
                         dropped.discard(vid)
                         changed = True
                         break
+        self.builder_ids = {i for i in self.builder_ids if self.builder_var[i] in dropped}
         return dropped, sinks
+
+    def only_message(self, n):
+        """statement consists of message-building statements only"""
+        k = n.get('kind')
+        x = n
+        while x.get('kind') == 'ExprWithCleanups' and x.get('inner'):
+            x = x['inner'][0]
+        if id(x) in self.builder_ids or id(n) in self.builder_ids:
+            return True
+        if k == 'CompoundStmt':
+            return all(self.only_message(y) for y in n.get('inner', []) if y)
+        if k == 'IfStmt':
+            inner = [y for y in n.get('inner', []) if y]
+            return all(self.only_message(y) for y in inner[1:]) and not any(
+                z.get('kind') in ('CallExpr', 'CXXMemberCallExpr', 'CXXOperatorCallExpr') for z in walk(inner[0]))
+        if k == 'NullStmt':
+            return True
+        return False
 
     def _is_log_call(self, x):
         inner = x.get('inner', [])
@@ -1053,6 +1089,12 @@ class Translator:
         self.pre = saved
 
     def s_expr(self, n):
+        x0 = n
+        while x0.get('kind') == 'ExprWithCleanups' and x0.get('inner'):
+            x0 = x0['inner'][0]
+        if id(x0) in self.builder_ids:
+            self.cur.dropped.append(('message text', self._line(n)))
+            return
         if any(id(n) == id(s) for s in self.sinks):
             self.cur.dropped.append(('log', self._line(n)))
             return
@@ -1313,6 +1355,11 @@ class Translator:
         raw = n.get('inner', [])
         # clang: [init, condvar, cond, inc, body] with {} for absent parts
         init, cond, inc, body = raw[0], raw[2], raw[3], raw[4]
+        if self.only_message(body) and init and init.get('kind') == 'DeclStmt' and \
+                not any(z.get('kind') in ('CallExpr', 'CXXOperatorCallExpr') for z in walk(inc or {})):
+            # a counting loop whose body only appends to an exception/log message
+            self.cur.dropped.append(('message-building loop', self._line(n)))
+            return
         k = self.new_loop('for', n)
         self.out('{')
         self.ind += 1
@@ -1399,7 +1446,7 @@ class Translator:
         self.ind += 1
         dec = c.get('decreases')
         if dec:
-            self.out('DECR_T verif_d0 = (%s);' % dec)
+            self.out('__typeof__((%s) + 0) verif_d0 = (%s);' % (dec, dec))
         self.out('if (%s)' % ctext)
         self.out('{')
         self.ind += 1
@@ -1554,6 +1601,7 @@ class Translator:
         self.ghost_used = set()
         self.exported = {}
         self.cur_body = d
+        self.builder_ids = set()
         rt = d['type']['qualType']
         p = rt.find('(')
         rts = rt[:p].strip()
@@ -1704,6 +1752,7 @@ class Translator:
         self.ghost_used = set()
         self.exported = {}
         self.cur_body = d
+        self.builder_ids = set()
         self.cur_record = None
         self.ret_is_ref = False
         f.ret = 'void'
